@@ -2988,7 +2988,10 @@ mutual
     | .cons c r => plainCmd c && plainCmds r
   def plainCases : CaseList → Bool
     | .nil => true
-    | .cons _ _ body rest => plainBlock body && plainCases rest
+    -- a {default} (a value-less case) is the LAST case — as `toCases` (`caseJoin`) requires; there the
+    -- first-match reading `refCases` and Spec/Eval.renderCases (the default wherever it stands) coincide
+    | .cons _ values body rest =>
+      plainBlock body && plainCases rest && (!values.isEmpty || (match rest with | .nil => true | _ => false))
   def plainConds : CondList → Bool
     | .nil => true
     | .cons _ _ body rest => plainBlock body && plainConds rest
@@ -3128,7 +3131,10 @@ mutual
       obtain ⟨sv, hsv, h⟩ := out_bind_val h
       obtain ⟨out, ho, h⟩ := out_bind_val h
       have := ref_le_spec_cases cases sv env out (by simpa [plainCmd] using hp) ho
-      simp [hsv, this, Spec.Eval.Out.bind, h]
+      rw [Spec.Eval.renderCases] at this
+      have e : ∀ {α β : Type} (a : α) (f : α → Out β), (Out.val a).bind f = f a := fun _ _ => rfl
+      rw [hsv, e, this, e]
+      exact h
     | .call .., _, _, _, h => by simp [refCmd] at h
     | .letContent p name body, env, r, hp, h => by
       rw [Spec.Eval.renderCmd]
@@ -3163,26 +3169,43 @@ mutual
   theorem ref_le_spec_cases : ∀ (cs : CaseList) (sv : Val) (env : SEnv) (out : Bytes), plainCases cs = true →
       refCases F ae cs sv env = .val out → Spec.Eval.renderCases reg hasBundle (ae != .off) entry call none cs sv env = .val out
     | .nil, sv, env, out, _, h => by
-      rw [Spec.Eval.renderCases]
-      simpa [refCases] using h
+      rw [Spec.Eval.renderCases, Spec.Eval.renderMatch, Spec.Eval.renderDefault]
+      simpa [refCases, Spec.Eval.Out.bind, Spec.Eval.orDefault] using h
     | .cons p values body rest, sv, env, out, hp, h => by
-      rw [Spec.Eval.renderCases]
-      simp only [plainCases, Bool.and_eq_true] at hp
-      simp only [refCases] at h ⊢
+      simp only [plainCases, Bool.and_eq_true, Bool.or_eq_true, Bool.not_eq_true'] at hp
+      obtain ⟨⟨hpb, hpr⟩, hlast⟩ := hp
+      simp only [refCases] at h
       by_cases hem : values.isEmpty = true
-      · simp only [hem, if_true] at h ⊢
-        exact ref_le_spec_block body env out hp.1 h
-      · simp only [hem, Bool.false_eq_true, if_false] at h ⊢
+      · -- the default: it is the last case, nothing can match after it
+        simp only [hem, if_true] at h
+        have hv : values = [] := by simpa using hem
+        subst hv
+        have hr : rest = .nil := by
+          rcases hlast with h0 | h0
+          · simp at h0
+          · cases rest with
+            | nil => rfl
+            | cons _ _ _ _ => simp at h0
+        subst hr
+        rw [Spec.Eval.renderCases, Spec.Eval.renderMatch, Spec.Eval.renderDefault]
+        simp only [Spec.Eval.matchAny, Spec.Eval.Out.bind, Bool.false_eq_true, if_false, Spec.Eval.renderMatch,
+          Spec.Eval.orDefault, List.isEmpty_nil, if_true]
+        exact ref_le_spec_block body env out hpb h
+      · simp only [hem, Bool.false_eq_true, if_false] at h
         obtain ⟨hit, hh, h⟩ := out_bind_val h
-        rw [hh]
-        simp only [Spec.Eval.Out.bind]
+        have ih := fun h' => ref_le_spec_cases rest sv env out hpr h'
+        rw [Spec.Eval.renderCases, Spec.Eval.renderMatch, Spec.Eval.renderDefault, hh]
+        simp only [Spec.Eval.Out.bind, hem, Bool.false_eq_true, if_false]
         cases hit with
         | true =>
           simp only [if_true] at h ⊢
-          exact ref_le_spec_block body env out hp.1 h
+          rw [ref_le_spec_block body env out hpb h]
+          rfl
         | false =>
           simp only [Bool.false_eq_true, if_false] at h ⊢
-          exact ref_le_spec_cases rest sv env out hp.2 h
+          have := ih h
+          rw [Spec.Eval.renderCases] at this
+          exact this
   theorem ref_le_spec_conds : ∀ (cs : CondList) (env : SEnv) (out : Bytes), plainConds cs = true →
       refConds F ae cs env = .val out → Spec.Eval.renderConds reg hasBundle (ae != .off) entry call none cs env = .val out
     | .nil, env, out, _, h => by
